@@ -155,7 +155,9 @@ func (m *model) count(self int, ips []string, t0, t1 time.Duration, skip map[int
 func (m *model) cntDef(p int) int {
 	n := 0
 	for _, c := range m.circs {
-		if c.state == circOpen && (c.s == p || c.d == p) {
+		// "definitely open": established, nothing that can end it has happened, and both ends the harness holds
+		// are still waiting for data
+		if c.state == circOpen && (c.s == p || c.d == p) && c.fw != nil && !c.fw.done && !c.bw.done {
 			n++
 		}
 	}
